@@ -46,6 +46,22 @@ check('C20', E3,
       'pattern grammar and stream pool are finite and listed; other regex features not covered',
       'DESIGN.md 3 C20')
 
+check('C13', 'E1 table enumeration; real scratch file trees; real probe children for part (c)',
+      'complete enumeration of three finite tables: quoted argument lists (split_command_line round trip), PATH layouts (which), and the cross product of spawn settings observed by a real probe child',
+      'Every argument list / PATH layout / setting combination inside the stated bounds is executed against the real code and compared with an answer known by construction.',
+      'alphabet of 7 characters, arguments of 1..3 characters; part (c) uses real processes: no answer within a generous liveness bound is inconclusive (retried), never a verdict',
+      'DESIGN.md 3 C13')
+check('C18', 'E1 explicit-state BFS over the real ANSI object',
+      'explicit-state BFS over (grid, cursor, saved cursor, scroll region, FSM state, parameter stack, decoder state) with a complete token alphabet; exhaustive cut-point enumeration for chunk independence',
+      'All reachable terminal states on tiny screens (fix-point) and to a depth bound on larger ones satisfy totality/shape/cursor/no-residue; every token pair (and BFS-tree path) is re-fed under every cut set as str, latin-1 bytes and utf-8 bytes.',
+      'token alphabet finite (every known final x parameter classes, unknown finals, truncated prefixes); screens <= 3x4; no random testing on large screens',
+      'DESIGN.md 3 C18')
+check('C19', 'E1 explicit-state BFS over the real screen object x reference grid',
+      'explicit-state BFS of the product (real screen, reference grid) with whole-state comparison (frame condition) after every operation and all read accessors compared in every new state',
+      'All operation sequences to the fix-point on 1x1..2x2 and to a depth bound (with state deduplication) on 2x3..4x5, arguments from {below, 1, interior, max, above}, swapped corners, str/bytes.',
+      'reference grid written from the docstrings; doc-silent behaviours are pinned and listed in the evidence assumptions',
+      'DESIGN.md 3 C19')
+
 NOT_BUILT = {}
 
 
